@@ -5,7 +5,24 @@ import os
 
 VERIF = os.path.dirname(os.path.dirname(os.path.abspath(__file__)))
 
+TB = ('Trusted: Coq 8.16.1 kernel (vm_compute for table side conditions and finite sweeps, no native_compute, no axioms: every '
+      'property theorem prints "Closed under the global context"); the hand-written Gallina model of the Go code named in the text, tied '
+      'to /repo by the correspondence run (differential testing, not proof) and, for the int64 kernels and the ExtMap/ToEval/fold tables, by '
+      'harness/translator (regenerated and re-proved on every run); Lang/Spec.v is my transcription of the Cedar specification; extraction '
+      '(ExtrOcamlBasic only) + OCaml/zarith driver; Go stdlib and runtime modelled, not verified. ')
+
 CHECKS = {
+    'C01': dict(
+        level='proof', design='§6 C01',
+        text='Theorem C01_eval_refines_spec: for every expression, store and request whose numbers fit in 64 bits, the model of internal/eval '
+             '(wrap-around int64 kernels regenerated from evalers.go, iterative DFS for `in`, greedy like matcher, Go remainder in toDate/toTime, '
+             'same evaluation order / short-circuit / type tests) returns exactly the result of the declarative semantics (Lang/Spec.v): same value or '
+             'same error. Plus exact overflow detection of the four checked kernels on all of int64 x int64, like = wildcard semantics for every '
+             'pattern, spec `in` = reflexive-transitive closure, termination. Model tied to the code by ~50k-case (quick) / 350k-case (thorough) '
+             'correspondence: operator x boundary-operand table, extension constructors x literal strings, random trees.',
+        note=TB + 'ipaddr parsing/predicates and the calendar are Go stdlib (net/netip, time): the model transcribes them; the spec side uses the same '
+             'parsers (their exactness is C12).',
+        technique='Coq refinement proof (model evaluator = declarative semantics) + translator-regenerated kernels + differential correspondence'),
     'C02': dict(
         level='proof', design='§6 C02',
         text='Coq theorems (Properties/C02.v: C02_decision, C02_reasons, C02_errors, C02_order_irrelevant) prove, for every finite '
@@ -13,12 +30,74 @@ CHECKS = {
              'reports exactly the satisfied forbids (else permits) and exactly the erroring policies. The model is tied to authorize.go by '
              'an exhaustive correspondence run (all sequences of <=4 (quick) / <=6 (thorough) policies over effect x outcome, three iterator kinds) '
              'with ids and positions of every diagnostic checked.',
-        note='Trusted: Coq kernel; hand-written model Impl/Authorize.v (30 lines, mirrors authorize.go line by line); extraction; the '
-             'correspondence is differential testing. Policy satisfaction itself (scope+conditions) is C01/C03/C04.',
+        note=TB + 'Policy satisfaction itself (scope+conditions) is C01/C03/C04.',
         technique='Coq proof over all policy lists (fold invariant) + exhaustive differential correspondence with the Go code'),
+    'C03': dict(
+        level='proof', design='§6 C03',
+        text='Theorems C03_in_one / C03_in_set / C03_generic: the work-list search of entityInOne/entityInSet (todo stack, known set, the four pruning '
+             'tests) returns true exactly when the target is reachable by parent links of present entities (reflexive-transitive closure), on every '
+             'store incl. cycles, self parents, absent parents and absent queried entities, and never exceeds the fuel 1+|store| (termination). '
+             'Correspondence: every parent graph on 3 nodes x every presence subset (quick; 4 nodes thorough) x every pair / target set / is-in / scope '
+             'form, three-way compared (Go, model, independent closure).',
+        note=TB,
+        technique='Coq invariant proof of the DFS loop (partial correctness + fuel bound) + exhaustive small-graph correspondence'),
+    'C04': dict(
+        level='proof', design='§6 C04',
+        text='Theorem C04_fold_preserves_eval: for ANY fold table satisfying the boolean side condition, eval (fold e) = eval e in every environment '
+             '(same value or same error), lifted to compiled policies (C04_compiled_policy). The fold and ToEval tables are regenerated from '
+             'fold.go/convert.go on every run and the side condition is re-proved on them (C04_fold_table_sound, C04_toeval_table_ok): making `in`, '
+             '`is..in`, tags or entity attribute access foldable, or folding an operator with a different evaluator than ToEval uses, breaks a named '
+             'obligation. Correspondence: folded TREE (internal fold through a verif-tagged hook) = model fold; compiled outcome via cedar.Authorize = '
+             'direct evaluation; caller AST and text untouched.',
+        note=TB + 'Hook: internal/eval/verif_hooks.go + x/exp/eval/verif_hooks.go (build tag verif, add-only).',
+        technique='Coq structural-induction proof parametric in a table regenerated from the Go source + differential correspondence incl. Go-vs-Go oracle'),
+    'C05': dict(
+        level='translation_validation', design='§6 C05',
+        text='Model of doBatch (variable binding order as a parameter, doPartial per prefix, fixIgnores, cloneSub, callback budget / cancellation) '
+             'in Impl/Batch.v on top of the partial evaluator whose soundness is proved for C06; the batch = brute-force theorem is not closed yet, so '
+             'this check is claimed at the level of validation: batch.Authorize vs the model vs a brute-force run of cedar.Authorize over the Cartesian '
+             'product inside the harness (multiset of request, values, decision, reason ids; exactly-once; stop after k+1 / k callbacks on failure / cancellation).',
+        note=TB + 'The Coq development contributes the executable model only (no closed theorem for batch yet).',
+        technique='executable Coq model of doBatch + differential run against Go and against brute force'),
+    'C06': dict(
+        level='proof', design='§6 C06',
+        text='Model of partial.go (tryPartial with projection flag, errVariable/errIgnore, partialAnd/Or/If, residualOperand, partialHasEval, '
+             'PartialPolicy) in Impl/Partial.v; soundness theorem (residual satisfied iff original satisfied for every completion; dropped => never '
+             'satisfied) in Properties/C06.v. Correspondence: residual policies structurally Go = model; direct oracle on every completion of every '
+             'generated template (unknown principal/resource/context, unknowns nested in records and sets, ignore).',
+        note=TB + 'Ignore-widening is checked by the direct oracle only.',
+        technique='Coq proof of soundness of the partial evaluator model + structural differential correspondence + completion oracle'),
+    'C11': dict(
+        level='proof', design='§6 C11',
+        text='Theorems: veq is reflexive, symmetric (on canonical values), transitive and separates the ten types; mk_set builds exactly the distinct '
+             'members whatever the order/duplicates; record equality iff same keys with equal values; and the open-addressing table of types.Set (Go '
+             'map[uint64]Value, probing hash++ mod 2^64, sum of hashes) implements that set for EVERY hash function compatible with equality '
+             '(C11_table_members, C11_table_equal, totality of the probe loops). Correspondence: all short sequences over a hash-colliding universe '
+             '(incl. the family that wraps at 2^64), the member order of the marshalled set against the table model with the real FNV hashes, '
+             'immutability under mutation of constructor inputs / accessor outputs.',
+        note=TB + 'hash/fnv is stdlib (modelled in Impl/Hash.v).',
+        technique='Coq proof of the probing-table invariant (all collision patterns) + equality laws + exhaustive colliding-universe correspondence'),
+    'C12': dict(
+        level='proof', design='§6 C12',
+        text='Theorems: decimal / duration / datetime print-then-parse is the identity on all of int64 (datetime: on the accepted range; the full '
+             'statement is REFUTED at the first day of the range = known finding F27), parsers accept exactly the documented syntax and return in-range '
+             'mathematically exact values, NewDecimal(i, e) is exact or an error, the civil calendar conversions are mutually inverse on all days. '
+             'Correspondence: parsers on literal tables + edit-distance mutants, printers on boundary/random values, NewDecimal grid; direct oracle: the '
+             'Cedar rendering of values of every type evaluates to an equal value.',
+        note=TB + 'time.Date/UnixMilli and net/netip are stdlib: the calendar and the ip parser are models of them (ipaddr has correspondence only).',
+        technique='Coq round-trip and exactness proofs over all int64 (calendar by era sweep lifted) + differential correspondence'),
+    'C20': dict(
+        level='proof', design='§6 C20',
+        text='Theorems: Add/Remove refine the abstract id->policy function and keep ids unique; MarshalCedar order is the id-sorted permutation and '
+             'represents the same map; authorization depends only on the contents. Correspondence: every history of <=3 (quick) / <=4 operations over '
+             'add/replace/remove/JSON round trip/text reload/load document/Map() mutation, followed by get/all/marshal/authorize, and random histories, '
+             'every operation result compared (incl. policy0..policyN numbering, policy10 < policy2, file names).',
+        note=TB,
+        technique='Coq refinement to an abstract map + exhaustive short-history correspondence'),
 }
 
-NOT_APPLICABLE = []
+ALL = ['C%02d' % i for i in range(1, 21)]
+NOT_APPLICABLE = [dict(property_id=p, reason='check under construction at this commit (see DESIGN.md §6); the technique applies and the property will be claimed') for p in ALL if p not in CHECKS]
 
 
 def main():
@@ -41,7 +120,7 @@ def main():
         setup_cmd='python3 py/check.py --setup',
         hooks=dict(guard='verif', enable='go build -tags verif (harness/build.sh)',
                    baseline_off_cmd='cd /repo && go test -mod=mod -json -vet=off -count=1 -timeout 25m ./...',
-                   source_commits=[], add_only=True),
+                   source_commits=['e355874'], add_only=True),
         engines=[dict(name='coq-proof+correspondence', path='py/check.py',
                       serves_properties=sorted(CHECKS),
                       kind_free_text='Coq 8.16 development under coq/ (model + theorems), extracted to OCaml (ocaml/), compared with the Go '
